@@ -8,6 +8,7 @@
 #include <Vector/BLF.h>
 #include <fstream>
 #include <set>
+#include <thread>
 #include "hcommon.h"
 #include "seqgen.h"
 #include "twin.h"
@@ -46,24 +47,20 @@ static std::string cfgclass(const sg::Config & c) {
 }
 
 // ---------------------------------------------------------------------------------------------------------------- C01
-static int run_c01(uint64_t seed, long from, long to) {
-    ol::spec_selfcheck();
-    std::string path = tmp_path("c01");
-    long sessions = 0, objects = 0, big = 0; std::set<std::string> shapes; std::map<std::string, long> perclass; std::set<int> levels; std::set<uint32_t> csizes; std::string sample;
-    for (long idx = from; idx < to; idx++) {
-        hc::begin_case(std::to_string(idx));
-        wd::arm(120, "c01-session");
+struct C01Acc { long sessions = 0, objects = 0; std::set<std::string> shapes; std::map<std::string, long> perclass; std::set<int> levels; std::set<uint32_t> csizes; std::string sample; };
+static void c01_one(uint64_t seed, long idx, const std::string & path, C01Acc & acc) {
+    long & sessions = acc.sessions; long & objects = acc.objects; std::set<std::string> & shapes = acc.shapes; std::map<std::string, long> & perclass = acc.perclass; std::set<int> & levels = acc.levels; std::set<uint32_t> & csizes = acc.csizes; std::string & sample = acc.sample;
+    {
         sg::Config c = sg::make_config(seed, idx);
         sg::Seq s; sg::make_sequence(s, seed, idx, c.C < 16 ? 12 : 40, true, std::min<size_t>(3u << 20, (size_t)c.C * 2000));   // the stream stages scan their container list per chunk: keep #containers tractable
         std::string ctx = " [" + c.str() + "] case=" + std::to_string(idx) + " " + sg::describe_seq(s, 4);
-        wd::note(ctx.c_str());
         std::string e = write_file(path, s, c);
-        if (!e.empty()) { hc::viol("write-session:" + e, ctx); continue; }
+        if (!e.empty()) { hc::viol("write-session:" + e, ctx); return; }
         {
             File f;
             if (c.tiny_limits) f.verifSetLimits(c.Q, c.B);
             f.open(path.c_str(), std::ios_base::in);
-            if (!f.is_open()) { hc::viol("reopen-failed", ctx); continue; }
+            if (!f.is_open()) { hc::viol("reopen-failed", ctx); return; }
             size_t i = 0; bool bad = false;
             for (;; i++) {
                 ObjectHeaderBase * o = f.read();
@@ -91,11 +88,27 @@ static int run_c01(uint64_t seed, long from, long to) {
         }
         sessions++; levels.insert(c.level); csizes.insert(c.C);
         if (sample.empty() || idx % 101 == 0) sample = "[" + c.str() + "] " + sg::describe_seq(s, 5);
+    }
+}
+
+static int run_c01(uint64_t seed, long from, long to) {
+    ol::spec_selfcheck();
+    std::string path = tmp_path("c01");
+    C01Acc acc, acc2; long pairs = 0;
+    for (long idx = from; idx < to; idx++) {
+        hc::begin_case(std::to_string(idx));
+        wd::arm(240, "c01-session"); wd::note(("c01 case " + std::to_string(idx)).c_str());
+        // one case in eight runs together with its successor: two independent Files on two application threads
+        if (idx % 8 == 0 && idx + 1 < to) { std::thread t([&] { c01_one(seed, idx + 1, path + ".b", acc2); }); c01_one(seed, idx, path, acc); t.join(); pairs++; idx++; hc::begin_case(std::to_string(idx)); }
+        else c01_one(seed, idx, path, acc);
         wd::disarm();
     }
-    unlink(path.c_str());
+    unlink(path.c_str()); unlink((path + ".b").c_str());
+    acc.sessions += acc2.sessions; acc.objects += acc2.objects; acc.shapes.insert(acc2.shapes.begin(), acc2.shapes.end()); for (auto & kv : acc2.perclass) acc.perclass[kv.first] += kv.second;
+    acc.levels.insert(acc2.levels.begin(), acc2.levels.end()); acc.csizes.insert(acc2.csizes.begin(), acc2.csizes.end());
+    long sessions = acc.sessions, objects = acc.objects; std::set<std::string> & shapes = acc.shapes; std::map<std::string, long> & perclass = acc.perclass; std::set<int> & levels = acc.levels; std::set<uint32_t> & csizes = acc.csizes; std::string & sample = acc.sample;
     long minc = -1; for (int i = 0; i < vr::nclasses; i++) { long n = perclass.count(vr::classes[i].name) ? perclass[vr::classes[i].name] : 0; if (minc < 0 || n < minc) minc = n; }
-    std::ostringstream o; o << "{\"sessions\":" << sessions << ",\"objects\":" << objects << ",\"classes_seen\":" << perclass.size() << ",\"min_per_class\":" << minc << ",\"levels\":[";
+    std::ostringstream o; o << "{\"sessions\":" << sessions << ",\"concurrent_pairs\":" << pairs << ",\"objects\":" << objects << ",\"classes_seen\":" << perclass.size() << ",\"min_per_class\":" << minc << ",\"levels\":[";
     { bool f = true; for (int l : levels) { o << (f ? "" : ",") << l; f = false; } } o << "],\"container_sizes\":[";
     { bool f = true; for (uint32_t l : csizes) { o << (f ? "" : ",") << l; f = false; } } o << "],\"shapes\":[";
     { int k = 0; for (auto & sname : shapes) { if (k++) o << ","; o << hc::jstr(sname); if (k > 3000) break; } }
@@ -115,12 +128,7 @@ static void set_header(File & f, void * arg) {
     for (int k = 0; k < 2; k++) { st[k]->year = src[k][0]; st[k]->month = src[k][1]; st[k]->dayOfWeek = src[k][2]; st[k]->day = src[k][3]; st[k]->hour = src[k][4]; st[k]->minute = src[k][5]; st[k]->second = src[k][6]; st[k]->milliseconds = src[k][7]; }
 }
 
-static int run_gen(uint64_t seed, long from, long to, const std::string & dir, long K) {
-    ol::spec_selfcheck();
-    long files = 0;
-    for (long idx = from; idx < to; idx++) {
-        hc::begin_case(std::to_string(idx));
-        wd::arm(120, "gen-session");
+static bool gen_one(uint64_t seed, long idx, const std::string & dir, long K) {
         long sidx = idx / K, k = idx % K;
         sg::Config c = sg::make_config(seed, sidx * 7 + k * 13 + k);    // K different configurations for the same sequence
         if (k == 0) { c.level = (int)(sidx % 10); }
@@ -134,7 +142,6 @@ static int run_gen(uint64_t seed, long from, long to, const std::string & dir, l
         for (int i = 0; i < 8; i++) { h.t1[i] = (uint16_t)ol::boundary_value(r, 2); h.t2[i] = (uint16_t)ol::boundary_value(r, 2); }
         std::string base = dir + "/" + std::to_string(idx);
         std::string ctx = " [" + c.str() + "] case=" + std::to_string(idx);
-        wd::note(ctx.c_str());
         // concatenated encodings, obtained independently of the pipeline on the harness thread
         std::vector<uint8_t> E; long n115 = 0; std::vector<size_t> ends;
         for (size_t i = 0; i < s.objs.size(); i++) { std::vector<uint8_t> e = sg::encode(s.objs[i], s.cis[i]); E.insert(E.end(), e.begin(), e.end()); ends.push_back(E.size()); if ((unsigned)s.objs[i]->objectType == 115) n115++; }
@@ -142,7 +149,7 @@ static int run_gen(uint64_t seed, long from, long to, const std::string & dir, l
         {
             File f;
             std::string e = write_file(base + ".blf", s, c, &f, set_header, &h);
-            if (!e.empty()) { hc::viol("write-session:" + e, ctx); continue; }
+            if (!e.empty()) { hc::viol("write-session:" + e, ctx); return false; }
             w_usize = f.fileStatistics.uncompressedFileSize; w_count = f.fileStatistics.objectCount; w_fsize = f.fileStatistics.fileSize; w_rpo = f.fileStatistics.restorePointsOffset;
             w_cur_usize = f.currentUncompressedFileSize; w_cur_count = f.currentObjectCount;
         }
@@ -165,10 +172,25 @@ static int run_gen(uint64_t seed, long from, long to, const std::string & dir, l
         for (size_t i = 0; i < ends.size(); i++) j << (i ? "," : "") << ends[i];
         j << "]}";
         { std::ofstream m((base + ".json").c_str()); m << j.str(); }
-        files++;
+        return true;
+}
+
+#include <thread>
+static int run_gen(uint64_t seed, long from, long to, const std::string & dir, long K) {
+    ol::spec_selfcheck();
+    long files = 0, concurrent_pairs = 0;
+    for (long idx = from; idx < to; idx++) {
+        hc::begin_case(std::to_string(idx));
+        wd::arm(240, "gen-session"); wd::note(("gen case " + std::to_string(idx)).c_str());
+        // every other pair of cases runs as two independent File sessions at the same time (two application threads, two files)
+        if ((idx / 2) % 2 == 0 && idx % 2 == 0 && idx + 1 < to) {
+            bool ok2 = false; std::thread t([&] { ok2 = gen_one(seed, idx + 1, dir, K); });
+            bool ok1 = gen_one(seed, idx, dir, K); t.join();
+            files += (ok1 ? 1 : 0) + (ok2 ? 1 : 0); concurrent_pairs++; idx++; hc::begin_case(std::to_string(idx));
+        } else if (gen_one(seed, idx, dir, K)) files++;
         wd::disarm();
     }
-    hc::stat("{\"files\":" + std::to_string(files) + "}");
+    hc::stat("{\"files\":" + std::to_string(files) + ",\"concurrent_pairs\":" + std::to_string(concurrent_pairs) + "}");
     return 0;
 }
 
@@ -307,7 +329,7 @@ static int run_ids(long from, long to, const char * listfile) {
                 long k = 0;
                 while (ObjectHeaderBase * o = f.read()) {
                     uint32_t id = 0;
-                    if (CanMessage * m = dynamic_cast<CanMessage *>(o)) id = m->id; else if (AppText * t = dynamic_cast<AppText *>(o)) id = t->source;
+                    if (CanMessage * m = dynamic_cast<CanMessage *>(o)) id = m->id; else if (AppText * t = dynamic_cast<AppText *>(o)) id = t->source; else if (LinMessage2 * l = dynamic_cast<LinMessage2 *>(o)) id = (uint32_t)l->objectTimeStamp;
                     MemFile mf; o->write(mf);
                     line << " " << (unsigned)o->objectType << ":" << id << ":" << crc32(0, mf.buf.data(), (uInt)mf.buf.size());
                     delete o; objs++;
@@ -331,15 +353,15 @@ static int run_ids(long from, long to, const char * listfile) {
 struct C10Base {
     twin::Bytes file; twin::Bytes stream; std::vector<size_t> cpos; std::vector<size_t> cend;   // container start / end (incl. pad) offsets in file
     std::vector<size_t> opos;                                                                     // object start offsets in stream (by header walk)
-    long n_fbyte, n_f16, n_f32, n_ftrunc, n_fblock, n_sbyte, n_s16, n_s32, n_strunc, n_sblock, n_osize, n_cfield, n_combo, n_ccombo;
-    long total() const { return n_fbyte + n_f16 + n_f32 + n_ftrunc + n_fblock + n_sbyte + n_s16 + n_s32 + n_strunc + n_sblock + n_osize + n_cfield + n_combo + n_ccombo; }
+    long n_fbyte, n_f16, n_f32, n_ftrunc, n_fblock, n_sbyte, n_s16, n_s32, n_strunc, n_sblock, n_osize, n_cfield, n_combo, n_ccombo, n_tail;
+    long total() const { return n_fbyte + n_f16 + n_f32 + n_ftrunc + n_fblock + n_sbyte + n_s16 + n_s32 + n_strunc + n_sblock + n_osize + n_cfield + n_combo + n_ccombo + n_tail; }
     // segments in the order c10_mutant() consumes them; bulk segments are strided in the quick tier, targeted ones always run completely
-    void segs(long * n) const { long v[14] = {n_fbyte, n_f16, n_f32, n_ftrunc, n_fblock, n_sbyte, n_s16, n_s32, n_strunc, n_sblock, n_osize, n_combo, n_ccombo, n_cfield}; for (int i = 0; i < 14; i++) n[i] = v[i]; }
+    void segs(long * n) const { long v[15] = {n_fbyte, n_f16, n_f32, n_ftrunc, n_fblock, n_sbyte, n_s16, n_s32, n_strunc, n_sblock, n_osize, n_combo, n_ccombo, n_tail, n_cfield}; for (int i = 0; i < 15; i++) n[i] = v[i]; }
     static bool bulk(int seg) { return seg <= 3 || (seg >= 5 && seg <= 8); }
-    long bulk_total() const { long n[14]; segs(n); long t = 0; for (int i = 0; i < 14; i++) if (bulk(i)) t += n[i]; return t; }
+    long bulk_total() const { long n[15]; segs(n); long t = 0; for (int i = 0; i < 15; i++) if (bulk(i)) t += n[i]; return t; }
     long targeted_total() const { return total() - bulk_total(); }
     // index within the bulk (or targeted) sub-space -> unified index for c10_mutant
-    long unify(long k, bool want_bulk) const { long n[14]; segs(n); long base = 0; for (int i = 0; i < 14; i++) { if (bulk(i) == want_bulk) { if (k < n[i]) return base + k; k -= n[i]; } base += n[i]; } return total() - 1; }
+    long unify(long k, bool want_bulk) const { long n[15]; segs(n); long base = 0; for (int i = 0; i < 15; i++) { if (bulk(i) == want_bulk) { if (k < n[i]) return base + k; k -= n[i]; } base += n[i]; } return total() - 1; }
 };
 static const uint8_t BV8[] = {0x00, 0x01, 0x7f, 0x80, 0xff};
 static const uint64_t BVW[] = {0, 1, 0x7fffffffffffffffULL, 0x8000000000000000ULL, 0xffffffffffffffffULL};
@@ -363,7 +385,8 @@ static void c10_prepare(C10Base & b) {
     b.n_osize = 21 * (long)b.opos.size() * 2; b.n_cfield = 2 * 16 * (long)std::max<size_t>(1, b.cpos.size() ? 1 : 0);
     b.n_combo = 2 * 6 * 8 * 3 * (long)b.opos.size();
     b.n_ccombo = 2 * 7 * 4 * 3 * (long)b.cpos.size();
-    if (m == 0) b.n_sbyte = b.n_s16 = b.n_s32 = b.n_strunc = b.n_sblock = b.n_osize = b.n_cfield = b.n_combo = b.n_ccombo = 0;
+    b.n_tail = 3 * 14;
+    if (m == 0) b.n_sbyte = b.n_s16 = b.n_s32 = b.n_strunc = b.n_sblock = b.n_osize = b.n_cfield = b.n_combo = b.n_ccombo = b.n_tail = 0;
 }
 
 static void put_le(twin::Bytes & v, size_t off, uint64_t val, int w) { for (int i = 0; i < w && off + i < v.size(); i++) v[off + i] = (uint8_t)(val >> (8 * i)); }
@@ -431,6 +454,15 @@ static twin::Bytes c10_mutant(const C10Base & b, long j, std::string & kind) {
         put_le(w, p + 8, os[k % 7], 4); put_le(w, p + 24, uss[(k / 7) % 4], 4); put_le(w, p + 16, ms[(k / 28) % 3], 2);
         return w;
     } j -= b.n_ccombo;
+    if (j < b.n_tail) {
+        // signature fragments and stray bytes at the very end of the object stream (re-wrapped, method 0 / 2) or of the file
+        kind = "trailing-fragment"; int where = (int)(j % 3); long k = j / 3;
+        static const char * tails[] = {"L", "LO", "LOB", "LOBJ", "xL", "xLO", "xLOB", "LL", "LOL", "LOBL", "LOBJLOB", "xxxL", "xxLO", "xLOBJ"};
+        std::string t = tails[k % 14]; for (auto & ch : t) if (ch == 'x') ch = 0;
+        if (where == 2) { f.insert(f.end(), t.begin(), t.end()); return f; }
+        s.insert(s.end(), t.begin(), t.end());
+        return rewrap(b, s, where ? 6 : 0);
+    } j -= b.n_tail;
     {   // inconsistent container fields on the first container, method 0 and 2 wrapping
         kind = "container-field"; int level = (j % 2) ? 6 : 0; j /= 2;
         twin::Bytes w = rewrap(b, s, level);
@@ -532,7 +564,9 @@ static int run_c14w(uint64_t seed, long from, long to, const char * dir, const c
         if (repeat) {   // same sequence again in this process after unrelated allocation churn
             twin::Bytes first = twin::load(path);
             { std::vector<std::vector<char>> churn; Rng r(idx); for (int i = 0; i < 200; i++) churn.push_back(std::vector<char>(1 + r.below(5000), (char)r.next())); }
-            std::string p2 = path + ".again"; write_file(p2, s, c, nullptr, nullptr, nullptr, 30);      // same objects, different pacing
+            std::string p2 = path + ".again";
+            { twin::Bytes old = first; old.insert(old.end(), first.begin(), first.end()); old.insert(old.end(), 4096, 0x5A); twin::save(p2, old); }   // the path already holds a longer file from an earlier session
+            write_file(p2, s, c, nullptr, nullptr, nullptr, 30);      // same objects, different pacing
             twin::Bytes second = twin::load(p2); unlink(p2.c_str());
             if (first != second) { size_t off = 0; while (off < first.size() && off < second.size() && first[off] == second[off]) off++; hc::viol("differs-on-repetition-in-process", "offset " + std::to_string(off) + " [" + c.str() + "] case=" + std::to_string(idx) + " " + sg::describe_seq(s, 4)); }
             else repeats_equal++;
